@@ -1127,7 +1127,10 @@ class DecoCtx:
         for m in list(self.F) + list(self.D):
             self.member_by_key[strkey[str(m.value)]] = m
         self.strkey = strkey
-        self.vals = [object(), object(), object(), None, 0, 'x', (1, 2), object()]
+        def _argfn(f): return f
+        # decorator arguments: opaque objects, None, 0, a str, a tuple - and two that are themselves plain functions (`@on_error(use_default)`):
+        # what is decorated is the method under the `@` line, whatever the argument is
+        self.vals = [object(), _argfn, object(), None, 0, 'x', (1, 2), (lambda *a, **k: None)]
         self.objs = {1000: 42, 1001: 'const'}
         self.xns = {int(k): v for k, v in x['ns'].items()}
         self.chains = {}             # (cid, unders, stem) -> [function objects: def, wrapper 1, …]
